@@ -28,6 +28,7 @@ class FakeRedis:
         self.zsets: dict[str, dict[bytes, float]] = {}
         self.log: list = []
         self.fail_next = 0          # number of upcoming steps that raise ConnectionError (before taking effect)
+        self.latency = 0            # extra loop iterations a step spends on the wire, each way (a round trip takes time)
 
     # ---- server-side primitives (synchronous: one atomic step each) ----
     def _zsorted(self, name: str) -> list:
@@ -163,6 +164,8 @@ class FakeRedis:
     async def _step(self, kind: str, cmds: list):
         """one atomic server step: a single command, or the commands of one MULTI/EXEC"""
         await asyncio.sleep(0)
+        for _ in range(self.latency):
+            await asyncio.sleep(0)
         if self.fail_next > 0:
             self.fail_next -= 1
             self.log.append({"issuer": ISSUER.get(), "kind": kind, "cmds": cmds, "replies": None, "failed": True})
@@ -170,6 +173,8 @@ class FakeRedis:
         replies = [self._apply(c) for c in cmds]
         self.log.append({"issuer": ISSUER.get(), "kind": kind, "cmds": cmds, "replies": replies, "failed": False})
         await asyncio.sleep(0)
+        for _ in range(self.latency):
+            await asyncio.sleep(0)
         return replies
 
     # ---- client API used by repid ----
